@@ -349,6 +349,17 @@ Proof.
   intros H. unfold nthZ. rewrite (nth_indep _ 0 (g d)) by (rewrite map_length; exact H). apply map_nth.
 Qed.
 
+(* with the extracted fact "both inputs are argsorted" the order handed to _match_arrays is a sorting
+   permutation; for the other reading of the source this lemma (and everything below) does not hold *)
+Lemma input_order_is_argsort srt : is_argsort srt -> is_argsort (input_order srt).
+Proof. intros H. exact H. Qed.
+
+Lemma ctor_rows_match_id {D} sh (rows : list (idx * D)) : ctor_rows s_match_coo_ctor_sorted sh rows = rows.
+Proof. reflexivity. Qed.
+
+Lemma ctor_rows_func_id {D} sh (rows : list (idx * D)) : ctor_rows s_func_array_ctor_sorted sh rows = rows.
+Proof. reflexivity. Qed.
+
 Lemma match_pairs_spec srt (srt_ok : is_argsort srt) sh1 c1 sh2 c2 cur :
   broadcast_shape2 false sh1 sh2 = Ok cur ->
   Forall (in_range sh1) c1 -> Forall (in_range sh2) c2 ->
@@ -365,7 +376,8 @@ Proof.
   set (rsh := select (msk2 sh1 sh2 cur) sh2).
   set (k1 := map (fun t => ravel rsh (select (msk1 sh1 sh2 cur) t)) c1).
   set (k2 := map (fun t => ravel rsh (select (msk2 sh1 sh2 cur) t)) c2).
-  exists (joined srt k1 k2). split; [reflexivity|]. destruct (joined_spec srt srt_ok k1 k2) as [Hnd Hin]. split; [exact Hnd|].
+  exists (joined (input_order srt) k1 k2). split; [reflexivity|].
+  destruct (joined_spec (input_order srt) (input_order_is_argsort srt srt_ok) k1 k2) as [Hnd Hin]. split; [exact Hnd|].
   intros i j. rewrite Hin. unfold k1, k2. rewrite !map_length.
   rewrite Forall_forall in R1, R2.
   split; intros [H1 [H2 H3]]; repeat split; auto.
@@ -450,7 +462,8 @@ Section General.
       exists q. unfold g. simpl. rewrite Q1. cbn [bind]. auto. }
     rewrite (mapM_Ok g ([], [])).
     2:{ intros [i j] Hij. destruct (Hg i j Hij) as [q [E _]]. eauto. }
-    cbn [bind]. eexists. split; [reflexivity|].
+    cbn [bind]. change s_match_coo_ctor_has_duplicates with false. cbv iota. rewrite ctor_rows_match_id.
+    eexists. split; [reflexivity|].
     set (h := fun x => match g x with Ok y => y | Raise _ => ([], []) end).
     assert (Hh : forall i j, In (i, j) pairs ->
                exists q, h (i, j) = (q, snd (nth i rows ([], [])) ++ [nth j (c_data a2) vzero]) /\
@@ -580,7 +593,7 @@ Section General.
     - exists rows'. auto.
     - pose proof (rows_spec_expand (a1 :: rest) B' T rows' S' F' T' Hok) as Hx. unfold expand_rows in Hx.
       destruct (expand_coords_data (map fst rows') (map snd rows') (bcast_params B' T) T) as [cs vs].
-      eexists. split; [reflexivity|exact Hx].
+      rewrite ctor_rows_match_id. eexists. split; [reflexivity|exact Hx].
   Qed.
 
   (* _match_coo(func_array, arg, return_midx=True)[0] *)
@@ -953,8 +966,10 @@ Section Pieces.
       change (match kept with [] => Ok None | _ :: _ => _ end) with
         (if forallb (fun mi : option bool => match mi with Some false => false | _ => true end) m
          then Ok (Some es)
-         else bad <- mapM (fun arg => match_coo_midx V srt sh (map fst es) arg) unm ;;
-              Ok (Some (filter_pos (fun n => negb (existsb (Nat.eqb n) (concat bad))) O es))).
+         else bad <- mapM (fun arg => match_coo_midx V srt sh (map fst (ctor_rows s_func_array_ctor_sorted sh es)) arg) unm ;;
+              Ok (Some (filter_pos (fun n => negb (existsb (Nat.eqb n) (concat bad))) O
+                                   (ctor_rows s_func_array_ctor_sorted sh es)))).
+      rewrite !ctor_rows_func_id.
       destruct (forallb _ m) eqn:Hfb.
       + exists (Some es). split; [reflexivity|]. simpl. split; [exact End|].
         apply Final. intros q v. assert (Hun0 : unm = []) by (apply masks_no_false; exact Hfb).
